@@ -354,6 +354,9 @@ def expressions(max_leaves=12, refs=True, casts=True, comma=True, pp=False):
             st.builds(lambda o, a: ["un", o, a], st.sampled_from(["-", "+", "~", "!"]), ch),
             st.builds(lambda c, a, b: ["tern", c, a, b], ch, ch, ch),
             st.builds(lambda a: ["par", a], ch),
+            # shifts with a count that is usually valid (a random operand rarely is), also of negated operands
+            st.builds(lambda o, a, c, neg: ["bin", o, ["par", ["un", "-", a]] if neg else a, ["lit", c, "dec", ""]],
+                      st.sampled_from(["<<", ">>", ">>"]), ch, st.integers(0, 31), st.booleans()),
         ]
         if casts:
             alts.append(st.builds(lambda s, t, a: ["cast", s, t, a], st.sampled_from(["c", "static", "func"]),
